@@ -7,4 +7,4 @@ EXPLANATION = ("(b) strategy switches: bounded runtime contracts at the public i
 ASSUMPTIONS = ["A-LIB: TensorFlow graph tracing / XLA compilation are trusted only through the bounded comparison"]
 
 from vt.contracts import iface_amp  # noqa: F401,E402
-from vt.contracts import amp_assembly, einsum_sym  # noqa: F401,E402
+from vt.contracts import amp_assembly, einsum_sym, selection_alias  # noqa: F401,E402
